@@ -1,8 +1,140 @@
-(* Props/C13.v — property theorems only. *)
-From Coq Require Import List NArith Bool.
+(* Props/C13.v — aliases and merge keys read as the YAML specification
+   resolves them.  Property theorems only (closed by [exact]), refutation
+   witnesses by computation, non-vacuity examples.
+
+   Model: Model/Alias.v (three read routes, faithful to
+   operator_traverse_path.go / operator_anchors_aliases.go / printer.go /
+   candidiate_node_json.go, including the index arithmetic of overrideEntry).
+   Spec: Spec/YamlMergeSpec.v.  Documents are trees whose alias nodes carry
+   their anchored target; recursion is on fuel and every statement is about
+   runs that did not run out of it. *)
+From Coq Require Import List NArith Bool String.
 From YQ Require Import Base.Str Spec.YamlMergeSpec Model.Alias Proofs.AliasProofs.
 Import ListNotations.
 
-Theorem C13_explode_scalar : forall f a s, explode (S f) (Sc a s) = ROk (Sc false s).
-Proof. exact explode_scalar. Qed.
-Print Assumptions C13_explode_scalar.
+(* ---------------- explode(.) : every document, every fuel ---------------- *)
+(* whatever explode returns contains no alias node, no anchor and no merge key *)
+Theorem C13_explode_no_alias_no_anchor : forall (fuel : nat) (d d' : node),
+  explode fuel d = ROk d' -> clean d' = true.
+Proof. exact explode_clean. Qed.
+Print Assumptions C13_explode_no_alias_no_anchor.
+
+(* a (sub)tree without alias nodes and merge keys is returned unchanged, minus its anchors *)
+Theorem C13_explode_other_values_kept : forall (fuel : nat) (d d' : node),
+  plain d = true -> explode fuel d = ROk d' -> d' = strip_anchors d.
+Proof. exact explode_plain. Qed.
+Print Assumptions C13_explode_other_values_kept.
+
+(* ---------------- the three routes against the spec, one level of merging ---------------- *)
+(* For a map  {<<: SOURCES, k1: v1, ...}  with the merge key first, written
+   `<<: *s` for one source and `<<: [*s1, *s2, ...]` otherwise, whose sources
+   and explicit values are plain (no further alias / merge key inside):
+   on the domain [merge_simple] (no key twice among the sources, no empty
+   source key, explicit keys pairwise different, no explicit VALUE spelled like
+   a merged key) every key k other than << reads the same on
+     route 1: traversal of the un-exploded map (the node found is [want]),
+     routes 2/3: the exploded map (its entry for k is [want] minus anchors),
+     the spec: [resolve] (its entry for k is the value of [want]),
+   where [want] is the explicit value if k is written explicitly, else the
+   value in the first source that has k.  Partial: nesting (sources that merge
+   or alias again, explicit values holding aliases) and a merge key that is
+   not the first entry are covered by the correspondence run, not by this
+   theorem; the refutations below delimit the domain. *)
+Theorem C13_three_routes_agree_on_partial :
+  forall (fuel : nat) (a : bool) (srcs : list entries) (expl : entries) (k : str),
+  merge_simple srcs expl -> is_merge k = false ->
+  let es := (merge_key, merge_value srcs) :: expl in
+  let want := spec_lookup k srcs expl in
+  (forall r, tlook fuel k es None = ROk r -> r = want)
+  /\ (forall d', explode fuel (Mp a es) = ROk d' ->
+        exists es', d' = Mp false es' /\ lookup_entry k es' = option_map strip_anchors want)
+  /\ (forall vs, resolve fuel (Mp a es) = Some (VM vs) -> vlookup k vs = option_map value_of want).
+Proof. exact three_routes_flat. Qed.
+Print Assumptions C13_three_routes_agree_on_partial.
+
+(* ================================================================== *)
+(* refutations (each reproduced on the real binary, KNOWN_FINDINGS.txt) *)
+(* ================================================================== *)
+Definition W (s : string) : str := str_of_string s.
+Definition I (s : string) : node := Sc false (W s).
+
+Definition map_a : node := Mp true [(W "x", I "1"); (W "y", I "2")].
+Definition map_b : node := Mp true [(W "x", I "10"); (W "w", I "3")].
+
+(* m: {<<: [*a, *b], q: 0} : traversal reads b's x, explode and JSON a's; the spec says a's *)
+Theorem C13_mergelist_overlap_refuted : exists (d : node) (p : list step),
+  route1 20 d p = ROk (W "10") /\ route2 20 d p = ROk (W "1")
+  /\ option_map (vget p) (resolve 20 d) = Some (Some (VS (W "1"))).
+Proof.
+  exists (Mp false [(W "a", map_a); (W "b", map_b);
+                    (W "m", Mp false [(merge_key, Sq false [Al map_a; Al map_b]); (W "q", I "0")])]),
+         [PKey (W "m"); PKey (W "x")].
+  vm_compute. repeat split.
+Qed.
+Print Assumptions C13_mergelist_overlap_refuted.
+
+(* n: {x: 5, <<: *a} : all three routes read 1, the spec says 5 *)
+Theorem C13_explicit_before_merge_refuted : exists (d : node) (p : list step),
+  route1 20 d p = ROk (W "1") /\ route2 20 d p = ROk (W "1")
+  /\ route3 20 d = ROk (W "{""a"":{""x"":1,""y"":2},""n"":{""x"":1,""y"":2}}")
+  /\ option_map (vget p) (resolve 20 d) = Some (Some (VS (W "5"))).
+Proof.
+  exists (Mp false [(W "a", map_a); (W "n", Mp false [(W "x", I "5"); (merge_key, Al map_a)])]),
+         [PKey (W "n"); PKey (W "x")].
+  vm_compute. repeat split.
+Qed.
+Print Assumptions C13_explicit_before_merge_refuted.
+
+(* m: {<<: [*a, *b], z: w} : the merged key w is dropped by explode because a VALUE is spelled w *)
+Theorem C13_mergelist_value_text_refuted : exists (d : node) (p : list step),
+  route1 20 d p = ROk (W "3") /\ route2 20 d p = ROk (W "null")
+  /\ option_map (vget p) (resolve 20 d) = Some (Some (VS (W "3"))).
+Proof.
+  exists (Mp false [(W "a", Mp true [(W "x", I "1")]); (W "b", map_b);
+                    (W "m", Mp false [(merge_key, Sq false [Al (Mp true [(W "x", I "1")]); Al map_b]); (W "z", I "w")])]),
+         [PKey (W "m"); PKey (W "w")].
+  vm_compute. repeat split.
+Qed.
+Print Assumptions C13_mergelist_value_text_refuted.
+
+(* b: *a with a: &a {<<: *c, x: *d} : printing the result of .b keeps a literal << key *)
+Theorem C13_subresult_literal_merge_refuted : exists (d : node) (p : list step),
+  route1 20 d p = ROk (W "{""<<"":{""z"":9},""x"":5}") /\ route2 20 d p = ROk (W "{""z"":9,""x"":5}").
+Proof.
+  pose (c := Mp true [(W "z", I "9")]). pose (dd := Sc true (W "5")).
+  pose (a := Mp true [(merge_key, Al c); (W "x", Al dd)]).
+  exists (Mp false [(W "c", c); (W "d", dd); (W "a", a); (W "b", Al a)]), [PKey (W "b")].
+  vm_compute. split; reflexivity.
+Qed.
+Print Assumptions C13_subresult_literal_merge_refuted.
+
+(* ================================================================== *)
+(* non-vacuity                                                         *)
+(* ================================================================== *)
+Example C13_example :
+  let c := Mp true [(W "z", I "9")] in
+  let a := Mp true [(merge_key, Al c); (W "x", Sc true (W "5"))] in
+  let d := Mp false [(W "c", c); (W "a", a); (W "s", Sq true [Al a; I "7"]);
+                     (W "e", Mp false [(merge_key, Sq false [Al a]); (W "x", I "1"); (W "y", I "2")])] in
+  route3 20 d = ROk (W "{""c"":{""z"":9},""a"":{""z"":9,""x"":5},""s"":[{""z"":9,""x"":5},7],""e"":{""z"":9,""x"":1,""y"":2}}")
+  /\ route1 20 d [PKey (W "e"); PKey (W "z")] = ROk (W "9")
+  /\ route2 20 d [PKey (W "e"); PKey (W "x")] = ROk (W "1")
+  /\ route1 20 d [PKey (W "s"); PIdx 0; PKey (W "z")] = ROk (W "9")
+  /\ option_map (vget [PKey (W "e"); PKey (W "x")]) (resolve 20 d) = Some (Some (VS (W "1")))
+  /\ tlook 5 (W "z") [(merge_key, merge_value [[(W "z", I "9"); (W "x", I "5")]]); (W "x", I "1"); (W "y", I "2")] None
+       = ROk (Some (I "9"))
+  /\ explode 5 (Mp false [(merge_key, merge_value [[(W "z", I "9"); (W "x", I "5")]]); (W "x", I "1"); (W "y", I "2")])
+       = ROk (Mp false [(W "z", I "9"); (W "x", I "1"); (W "y", I "2")]).
+Proof. cbv zeta. repeat split; vm_compute; reflexivity. Qed.
+
+(* the hypotheses of the partial theorem are satisfiable *)
+Example C13_merge_simple_example :
+  merge_simple [[(W "z", I "9"); (W "x", I "5")]; [(W "w", I "3")]] [(W "x", I "1"); (W "y", I "2")].
+Proof.
+  unfold merge_simple. vm_compute. repeat split.
+  - repeat constructor; cbn; intuition discriminate.
+  - intros s [<-|[<-|[]]]; reflexivity.
+  - intuition discriminate.
+  - repeat constructor; cbn; intuition discriminate.
+  - intros k H1 H2. intuition (subst; discriminate).
+Qed.
